@@ -21,6 +21,13 @@ type c18Case struct {
 	History []string `json:"history"` // transition names, applied after restoring defaults
 	Family  string   `json:"family,omitempty"`
 	Cold    bool     `json:"cold_start,omitempty"` // the history is the first thing a fresh process does (no call of any kind before it)
+	// documented behavioural effect of the empty-element syntax switch (a value and an encoder)
+	Value   json.RawMessage `json:"value,omitempty"`
+	Encoder string          `json:"encoder,omitempty"`
+	// documented effect of the attribute / key prefixes: they name keys inside the Map, nothing else
+	Xml    string `json:"xml,omitempty"`
+	Prefix string `json:"prefix,omitempty"`
+	KeyPfx bool   `json:"key_prefix,omitempty"`
 }
 
 func init() {
@@ -166,7 +173,7 @@ func c18Transitions() []c18Trans {
 			}
 		}, "xmlEscapeCharsDecoder", "xmlEscapeChars")
 	}
-	for _, p := range []string{"-", "", "@"} {
+	for _, p := range []string{"-", "", "@", "_"} {
 		p := p
 		add("SetAttrPrefix("+q(p)+")", func() { mxj.SetAttrPrefix(p) }, func(m optModel) {
 			m["attrPrefix"] = q(p)
@@ -298,7 +305,7 @@ func c18Families() []c18Family {
 	encDeps := []string{"attrPrefix", "lenAttrPrefix", "textK", "xmlEscapeChars", "useGoXmlEmptyElemSyntax", "xmlCheckIsValid"}
 	seqEncDeps := append([]string{"xmlEscapeChars", "useGoXmlEmptyElemSyntax", "xmlCheckIsValid"}, keyDeps...)
 	fixedMap := func() mxj.Map {
-		return mxj.Map{"r": map[string]interface{}{"-x": "a<b", "@y": "2", "#text": "t & u", "_text": "w", "c": []interface{}{"1", map[string]interface{}{"-z": "q"}}, "e": ""}}
+		return mxj.Map{"r": map[string]interface{}{"-x": "a<b", "@y": "2", "#text": "t & u", "_text": "w", "__v": "3", "c": []interface{}{"1", map[string]interface{}{"-z": "q"}}, "e": ""}}
 	}
 	fixedSeq := func() mxj.MapSeq {
 		// built with the key names currently in force (read from the state dump)
@@ -593,7 +600,7 @@ func c18Run(c *Ctx) {
 			return
 		}
 	}
-	c.S.Rule = "explicit-state breadth-first search over the real package-option machine: state = dump of every option-like (scalar / function / pointer-nil-ness) package-level variable of mxj, generated at build time so that a new option variable is included automatically (tables, caches and pools are not option state); transitions = every option setter in every argument form (explicit true/false, argument-less, attribute prefixes {-,\"\",@}, PrependAttrWithHyphen, key prefixes {#,_,$}, field separators, array sizes, skip function nil/f, empty-element syntax, JsonUseNumber) - 62 transitions; all histories of length <= D from the initial state with state de-duplication. On every transition: the reference option machine predicts the whole next state vector (documented semantics incl. toggles, 'disable' for white space, 'reset' for the field separator, the coupling of the two escaping switches), explicit forms are idempotent (the setter's global writes are logged against its documented write set, informational). On every state: 11 API families behave exactly as in the canonical state that agrees on the family's documented dependency set (non-interference), and after restoring defaults the state vector and the behaviour battery equal the fresh-process baseline. Cold starts: every history of length 1 (thorough: <= 2) is also run as the first thing a fresh process does (a child process of the worker): it applies the history, uses all 11 families, restores the defaults and uses them again - behaviour after the restore must equal the fresh baseline and behaviour in the state must equal what the long-lived worker shows in that state (whatever is initialised lazily must not freeze the options in force at first use). non-trivial = distinct states."
+	c.S.Rule = "explicit-state breadth-first search over the real package-option machine: state = dump of every option-like (scalar / function / pointer-nil-ness) package-level variable of mxj, generated at build time so that a new option variable is included automatically (tables, caches and pools are not option state); transitions = every option setter in every argument form (explicit true/false, argument-less, attribute prefixes {-,\"\",@,_}, PrependAttrWithHyphen, key prefixes {#,_,$}, field separators, array sizes, skip function nil/f, empty-element syntax, JsonUseNumber) - 63 transitions; all histories of length <= D from the initial state with state de-duplication. On every transition: the reference option machine predicts the whole next state vector (documented semantics incl. toggles, 'disable' for white space, 'reset' for the field separator, the coupling of the two escaping switches), explicit forms are idempotent (the setter's global writes are logged against its documented write set, informational). On every state: 11 API families behave exactly as in the canonical state that agrees on the family's documented dependency set (non-interference), and after restoring defaults the state vector and the behaviour battery equal the fresh-process baseline. Documented behavioural effect of XmlGoEmptyElemSyntax ('<tag ...></tag> rather than <tag .../>'): for every value template with <= 4/5 nodes over {a,-x,#text} with empty containers, empty strings and nulls and 6 encoders, the output under the switch has the same token stream as the default output and contains no '/>'. Documented behavioural effect of the attribute prefix and the global key prefix (they only name keys inside the Map): for every document with <= 2 elements and <= 2 decorations (attributes whose own names begin with prefix characters: _id, __v, _; text, comment, PI), decode + encode under prefixes {@, _, __, attr_, -_} / key prefixes {_, $, %} gives the same XML as under the defaults. Cold starts: every history of length 1 (thorough: <= 2) is also run as the first thing a fresh process does (a child process of the worker): it applies the history, uses all 11 families, restores the defaults and uses them again - behaviour after the restore must equal the fresh baseline and behaviour in the state must equal what the long-lived worker shows in that state (whatever is initialised lazily must not freeze the options in force at first use). non-trivial = distinct states."
 	c.S.Assumptions = []string{"key prefixes are single punctuation characters (as the property states)", "the fresh-process baseline is recorded in the worker before any setter is called"}
 	depth := 4
 	if c.Thorough {
@@ -647,6 +654,69 @@ func c18Run(c *Ctx) {
 		frontier = next
 		c.S.BoundCompleted = d + 1
 	}
+	// documented behavioural effect of the empty-element syntax switch, on every small value
+	resetOptions()
+	ng := 4
+	if c.Thorough {
+		ng = 5
+	}
+	gv := newGen(GenP{Keys: []string{"a", "-x", "#text"}, MaxList: 2, MaxKeys: 3, EmptyList: true, EmptyMap: true, ListInList: false, Leaves: []interface{}{"s", "", nullLeaf{}}})
+	gv.values(ng, func(t *T) {
+		probe := inst(t, nil)
+		if !c03InDomain(probe, true) {
+			return
+		}
+		for _, enc := range []string{"Map.Xml", "Map.XmlIndent", "AnyXml", "AnyXmlIndent", "MapSeq.Xml", "MapSeq.XmlIndent"} {
+			if !c.Mine() {
+				continue
+			}
+			c.S.Schedules++
+			c.Count("empty_element_syntax_cases", 1)
+			c18EmptyElem(c, inst(t, nil), enc)
+		}
+	})
+	resetOptions()
+	// the prefixes are internal: round trip under every prefix = round trip under the default one
+	for nn := 1; nn <= 2; nn++ {
+		for _, base := range baseTrees(nn, "r", []string{"a", "b"}, 2) {
+			var docs []*XElem
+			var ds []Deco
+			for i := range base.elems() {
+				for _, an := range []string{"x", "_id", "__v", "_", "a-b", "n:_x"} {
+					ds = append(ds, Deco{Kind: 'a', El: i, Name: an, Value: "v"})
+				}
+				ds = append(ds, Deco{Kind: 't', El: i, Pos: 0, Value: "t"}, Deco{Kind: 'c', El: i, Pos: 0, Value: " c "}, Deco{Kind: 'p', El: i, Pos: 0, Value: "do it"})
+			}
+			for i := range ds {
+				if doc, ok := applyDecos(base, []Deco{ds[i]}); ok {
+					docs = append(docs, doc)
+				}
+				for j := i + 1; j < len(ds); j++ {
+					if doc, ok := applyDecos(base, []Deco{ds[i], ds[j]}); ok && c04InDomain(doc) {
+						docs = append(docs, doc)
+					}
+				}
+			}
+			for _, doc := range docs {
+				x := renderDoc(doc, rvDefault)
+				for _, p := range []string{"@", "_", "__", "attr_", "-_"} {
+					if c.Mine() {
+						c.Count("prefix_is_internal_cases", 1)
+						c.S.Schedules++
+						c18PrefixInternal(c, x, p, false)
+					}
+				}
+				for _, p := range []string{"_", "$", "%"} {
+					if c.Mine() {
+						c.Count("prefix_is_internal_cases", 1)
+						c.S.Schedules++
+						c18PrefixInternal(c, x, p, true)
+					}
+				}
+			}
+		}
+	}
+	resetOptions()
 	// cold starts: every history of length 1 (thorough: <= 2) as the first thing a fresh process does
 	ci := 0
 	for t1 := range e.trans {
@@ -757,7 +827,172 @@ func (e *c18Engine) coldCheck(history []int) {
 	}
 }
 
+// ---- documented behavioural effect: XmlGoEmptyElemSyntax ----
+// "<tag ...></tag> rather than <tag .../>": the output under the switch is the default output with every
+// self-closing tag written as a start tag and an end tag - the same token stream, no "/>" anywhere.
+
+func c18EmptyElem(c *Ctx, value interface{}, enc string) (nontrivial bool) {
+	cas := func() interface{} { return c18Case{Value: json.RawMessage(jsonOf(value)), Encoder: enc} }
+	run := func() (out []byte, err error) {
+		m := mxj.Map{"r": deepCopy(value)}
+		switch enc {
+		case "Map.Xml":
+			return m.Xml()
+		case "Map.XmlIndent":
+			return m.XmlIndent("", " ")
+		case "AnyXml":
+			return mxj.AnyXml(deepCopy(value), "r")
+		case "AnyXmlIndent":
+			return mxj.AnyXmlIndent(deepCopy(value), "", " ", "r")
+		default: // MapSeq.Xml / MapSeq.XmlIndent over the sequence decode of the default encoding
+			mxj.XmlDefaultEmptyElemSyntax()
+			x, e := m.Xml()
+			if e != nil {
+				return nil, e
+			}
+			ms, e := mxj.NewMapXmlSeq(x)
+			if e != nil {
+				return nil, e
+			}
+			if enc == "MapSeq.Xml" {
+				return ms.Xml()
+			}
+			return ms.XmlIndent("", " ")
+		}
+	}
+	var out0, out1 []byte
+	var err0, err1 error
+	st, pan := protect(func() {
+		mxj.XmlDefaultEmptyElemSyntax()
+		out0, err0 = run()
+		mxj.XmlGoEmptyElemSyntax()
+		if strings.HasPrefix(enc, "MapSeq") {
+			// run() switches to the default syntax for its decode step: switch back for the encode
+			m := mxj.Map{"r": deepCopy(value)}
+			mxj.XmlDefaultEmptyElemSyntax()
+			x, e := m.Xml()
+			if e == nil {
+				var ms mxj.MapSeq
+				if ms, e = mxj.NewMapXmlSeq(x); e == nil {
+					mxj.XmlGoEmptyElemSyntax()
+					if enc == "MapSeq.Xml" {
+						out1, err1 = ms.Xml()
+					} else {
+						out1, err1 = ms.XmlIndent("", " ")
+					}
+				}
+			}
+			if e != nil {
+				err1 = e
+			}
+		} else {
+			out1, err1 = run()
+		}
+		mxj.XmlDefaultEmptyElemSyntax()
+	})
+	mxj.XmlDefaultEmptyElemSyntax()
+	c.S.Transitions += 2
+	c.S.Validated++
+	if pan {
+		c.Violate("XmlGoEmptyElemSyntax", "panic", "empty-element-syntax", cas, nil, st)
+		return
+	}
+	if (err0 != nil) != (err1 != nil) {
+		c.Violate("XmlGoEmptyElemSyntax", "documented-behaviour", "empty-element-syntax", cas, nil, fmt.Sprintf("%s of %s: error-ness differs between the two syntaxes: %v / %v", enc, jsonOf(value), err0, err1))
+		return
+	}
+	if err0 != nil {
+		return
+	}
+	t0, e0 := rawTokens(out0, true, false)
+	t1, e1 := rawTokens(out1, true, false)
+	if e0 != nil {
+		return // the default output itself is judged by C03
+	}
+	if e1 != nil || !eqStrings(t0, t1) || bytes.Contains(out1, []byte("/>")) {
+		c.Violate("XmlGoEmptyElemSyntax", "documented-behaviour", "empty-element-syntax", cas, nil,
+			fmt.Sprintf("%s of %s\n default syntax: %q\n go syntax     : %q (tokenizer: %v)\n documented: <tag ...></tag> rather than <tag .../> - the same elements, attributes and text", enc, jsonOf(value), out0, out1, e1))
+		return true
+	}
+	return bytes.Contains(out0, []byte("/>"))
+}
+
+// ---- documented behavioural effect: the prefixes are internal ----
+// SetAttrPrefix / SetGlobalKeyMapPrefix choose how attribute and special keys are spelled inside the Map.
+// Decoding a document and encoding the Map again under one and the same prefix therefore gives the same XML
+// whatever the prefix is (as long as no element name starts with it).
+
+func c18PrefixInternal(c *Ctx, xmlText, prefix string, keyPfx bool) (nontrivial bool) {
+	cas := func() interface{} { return c18Case{Xml: xmlText, Prefix: prefix, KeyPfx: keyPfx} }
+	trip := func() (string, error) {
+		if keyPfx {
+			ms, err := mxj.NewMapXmlSeq([]byte(xmlText))
+			if err != nil {
+				return "", err
+			}
+			a, err := ms.Xml()
+			if err != nil {
+				return "", err
+			}
+			b, err := ms.XmlIndent("", " ")
+			return string(a) + "\n" + string(b), err
+		}
+		m, err := mxj.NewMapXml([]byte(xmlText))
+		if err != nil {
+			return "", err
+		}
+		a, err := m.Xml()
+		if err != nil {
+			return "", err
+		}
+		b, err := m.XmlIndent("", " ")
+		return string(a) + "\n" + string(b), err
+	}
+	var base, got string
+	var e0, e1 error
+	st, pan := protect(func() {
+		resetOptions()
+		mxj.XMLEscapeChars(true)
+		base, e0 = trip()
+		if keyPfx {
+			mxj.SetGlobalKeyMapPrefix(prefix)
+			curKeyPrefix = prefix
+		} else {
+			mxj.SetAttrPrefix(prefix)
+		}
+		got, e1 = trip()
+	})
+	resetOptions()
+	c.S.Transitions += 2
+	c.S.Validated++
+	api := "SetAttrPrefix"
+	if keyPfx {
+		api = "SetGlobalKeyMapPrefix"
+	}
+	if pan {
+		c.Violate(api, "panic", "prefix-is-internal", cas, nil, st)
+		return
+	}
+	if e0 != nil {
+		return
+	}
+	if e1 != nil || got != base {
+		c.Violate(api, "documented-behaviour", "prefix-is-internal", cas, nil,
+			fmt.Sprintf("xml=%q decoded and encoded again\n under the default prefix: %q\n under prefix %q      : %q (err=%v)\n the prefix only names keys inside the Map", xmlText, base, prefix, got, e1))
+		return true
+	}
+	return true
+}
+
 func c18Replay(c *Ctx, k c18Case) {
+	if k.Xml != "" {
+		c18PrefixInternal(c, k.Xml, k.Prefix, k.KeyPfx)
+		return
+	}
+	if k.Encoder != "" {
+		c18EmptyElem(c, fromJSON(string(k.Value)), k.Encoder)
+		return
+	}
 	e := &c18Engine{c: c, trans: c18Transitions(), fams: c18Families(), canon: map[string]string{}, baseBat: map[string]string{}}
 	e.base = realVector()
 	for _, f := range e.fams {
